@@ -8,7 +8,7 @@
     [sfx] / [sibling_fix]: the generator with / without fixes/C20-nla-sibling-dependencies.diff. *)
 From Coq Require Import List Bool Arith.
 From LC Require Import AnalysisDefs AnalysisSpec AnalysisOwnProofs ExternalDefs ExternalEmitProofs ExternalMarkProofs ExternalProofs ExternalWitness
-                       ExternalMsgProofs ExternalOwnProofs ExternalWitness2 ExternalNlaProofs ExternalDepsProofs ExternalDepsConvProofs.
+                       ExternalMsgProofs ExternalOwnProofs ExternalWitness2 ExternalNlaProofs ExternalDepsProofs ExternalDepsConvProofs ExternalRound7Proofs.
 Import ListNotations.
 
 (** ** The model is C05's *)
@@ -484,3 +484,24 @@ Print Assumptions C20_equation_dependencies_example.
 (* NOT PROVED: the link from [package] to every valid analysis result with its internal state spelled out (finish calls
    package on the requalified internal variables: which unknowns an external equation has is the placeholder clause, see
    C20_placeholder_refuted / C20_one_definer_with_externals); compared with the library on every run (E= field). *)
+
+(** ** Proof depth round 7: markings compose over [++] *)
+
+(** The marks handed to the analyser are a list homomorphism of the registered marks. *)
+Theorem C20_local_marks_app : forall m1 m2, local_marks (m1 ++ m2) = local_marks m1 ++ local_marks m2.
+Proof. exact ExternalRound7Proofs.local_marks_app. Qed.
+Print Assumptions C20_local_marks_app.
+
+(** Without any range hypothesis, on the code before the repair: marks on variables of another model inserted anywhere
+    in the sequence of registered marks do not change the analysis outcome. *)
+Theorem C20_unfixed_foreign_marks_irrelevant : forall s m1 f m2,
+  Forall (fun m => match xm_var m with XForeign _ => True | XLocal _ => False end) f ->
+  xr_outcome (analyse_x false s (m1 ++ f ++ m2)) = xr_outcome (analyse_x false s (m1 ++ m2)).
+Proof. exact ExternalRound7Proofs.unfixed_foreign_marks_irrelevant. Qed.
+Print Assumptions C20_unfixed_foreign_marks_irrelevant.
+
+(** The range hypothesis of the marking theorems composes and decomposes over [++]. *)
+Theorem C20_marks_in_range_app : forall s m1 m2,
+  marks_in_range s (m1 ++ m2) <-> marks_in_range s m1 /\ marks_in_range s m2.
+Proof. exact ExternalRound7Proofs.marks_in_range_app. Qed.
+Print Assumptions C20_marks_in_range_app.
